@@ -72,8 +72,12 @@ def _(chars: Bytes) -> Nat:
     loop(0, invariant=[num >= 0, lv_be(num, list(byte_array)) == lv_be(0, list(chars))], decreases=len(byte_array))
 
 
+fixup("PermittedAlphabet", "self.encode_map = {abs(k) % 0x110000: v for k, v in self.encode_map.items()}\nself.decode_map = {abs(k) % 0x110000: v for k, v in self.decode_map.items()}")
+
+
 @contract("PermittedAlphabet.encode", props=["C05", "C12"])
 def _(self, value: Nat) -> Nat:
+    native(domain=value <= 1114111)     # generated inputs: character codes (chr() in the message text)
     raises_iff(EncodeError, value not in self.encode_map)
     ensures(result == self.encode_map[value])
 
